@@ -458,8 +458,52 @@ def rule_TRAIL(ctx):
             else:
                 r.fail(f.key, x, f"Array.{name} addresses its data from the END ({norm(x)[:60]}): with trailing bits (a data length that is not a whole "
                        'number of items) that is not where the last item is - the wrong bits are taken and the trailing bits are destroyed', loc=f.loc(x))
+    # ... and a method that has refused trailing bits must not create them: what it appends is whole items - never the raw
+    # conversion of caller-supplied data (a file, a bytes object) of whatever length it happens to have
+    n_grow = 0
+    for name, f in sorted(arr.methods.items()):
+        refused = False
+        stores = {}
+        for x in own_walk(f.node):
+            if isinstance(x, (ast.Assign, ast.AugAssign, ast.For)):
+                for t in (x.targets if isinstance(x, ast.Assign) else [x.target]):
+                    for y in ast.walk(t):
+                        if isinstance(y, ast.Name):
+                            stores[y.id] = stores.get(y.id, 0) + 1
+        al = {x.targets[0].id: x.value for x in own_walk(f.node) if isinstance(x, ast.Assign) and len(x.targets) == 1 and isinstance(x.targets[0], ast.Name)
+              and stores.get(x.targets[0].id) == 1 and isinstance(x.value, ast.BinOp) and isinstance(x.value.op, ast.Mod)}
+        for st in G.body_wo_doc(f):
+            if isinstance(st, ast.If) and G.always_raises(st.body):
+                for d in G.disjuncts(G.expand(f, st.test, al)):
+                    c = G.canon_truth(d)
+                    if isinstance(c, ast.BinOp) and isinstance(c.op, ast.Mod) and ast.unparse(c.left) == 'len(self.data)':
+                        refused = True
+        if not refused:
+            continue
+        raw = {}
+        for x in own_walk(f.node):
+            if isinstance(x, ast.Assign) and len(x.targets) == 1 and isinstance(x.targets[0], ast.Name) and isinstance(x.value, ast.Call) \
+                    and ast.unparse(x.value.func).split('.')[-1] in ('Bits', 'BitArray', 'BitStream', 'ConstBitStream') and x.value.args \
+                    and any(isinstance(y, ast.Name) and y.id in f.params() for y in ast.walk(x.value.args[0])) and stores.get(x.targets[0].id) == 1:
+                raw[x.targets[0].id] = x
+        for x in own_walk(f.node):
+            v = None
+            if isinstance(x, ast.AugAssign) and isinstance(x.op, ast.Add) and ast.unparse(x.target) == 'self.data':
+                v = x.value
+            elif isinstance(x, ast.Call) and isinstance(x.func, ast.Attribute) and x.func.attr in ('append', 'extend') and ast.unparse(x.func.value) == 'self.data' and x.args:
+                v = x.args[0]
+            if v is None:
+                continue
+            n_grow += 1
+            if isinstance(v, ast.Name) and v.id in raw:
+                r.fail(f.key, x, f"Array.{name} has refused trailing bits, then appends '{v.id}' = {norm(raw[v.id].value)[:50]} whole, whatever its length: data that is not "
+                       'a whole number of items leaves trailing bits behind (later appends fail, tobytes() is too long)', loc=f.loc(x))
+            else:
+                r.ok(f'{f.key}:{norm(x)}')
     if n < 4:
         raise AnalysisError(f'only {n} end-relative accesses of Array data found (floor 4)')
+    if n_grow < 3:
+        raise AnalysisError(f'only {n_grow} growth sites of Array data behind a trailing-bits refusal found (floor 3)')
     return r
 
 
